@@ -27,6 +27,8 @@ inductive Err where
   | divZero | overRange | notOneBit | type | argCnt | funcArgCnt | funcArg | floatOvf | argPair
   | bracket | unknownFunc | symbol
   | ub      -- MODEL only: the C code runs into undefined behaviour here
+  | internal -- MODEL only: the assembler reports "internal error" (and ends the assembly)
+  | silent  -- MODEL only: no value and no error message
   | undef   -- SPEC only: the manual does not define this point (not judged by comparator C)
   | fuel
 deriving DecidableEq, Repr
@@ -244,32 +246,107 @@ def asInt : Val → Except Err W
   | .str s => match strToInt s with | some v => .ok v | none => .error .type
   | .flt _ => .error .type
 
-/-- dyadic operators with the typing of the table: int→float promotion where the operator takes floats,
-string→integer conversion where an integer is expected -/
-def specBin (o : BinOp) (l r : Val) : Except Err Val :=
-  match l, r with
+/-! ## automatic type conversion of operands ("String to Integer Conversion and Character Constants",
+"Functions": automatic type conversion)
+
+The manual states two conversions and the table "Operators Predefined by AS" states which types an
+operator works on:
+
+* a string (character constant, multi character constant) used where a number is expected is converted
+  "on the fly" via the (ASCII) values of its characters (`'A' == $41`, `'AB' == $4142`);
+* an integer that meets a floating point operand / parameter is converted to floating point.
+
+Both steps apply one after the other: a character constant that meets a floating point operand under an
+operator that takes floats is first a number (its character code) and then promoted: `'A'*1.5 = 97.5`. -/
+
+/-- data types of the manual (columns "integer", "float", "string") -/
+inductive Ty where
+  | int | flt | str
+deriving DecidableEq, Repr
+
+def Val.ty : Val → Ty
+  | .int _ => .int
+  | .flt _ => .flt
+  | .str _ => .str
+
+def Ty.all : List Ty := [.int, .flt, .str]
+
+/-- what happens to one operand before the operation is carried out -/
+inductive Conv where
+  | keep      -- used as it is
+  | s2i       -- string → integer
+  | i2f       -- integer → float
+  | s2i2f     -- string → integer → float
+deriving DecidableEq, Repr
+
+/-- **the promotion rule**: for an operator and the types of its two operands, the conversions applied
+to the left and the right operand; `.error .type` = no way to meet the operator's type columns.
+
+* no float involved, both numbers or convertible to numbers: integer operation;
+* a float involved: the operator must take floats (column "float"), the other operand becomes a float
+  (an integer directly, a string via its integer value);
+* two strings: string operation where the operator takes strings (column "string"), otherwise both
+  become integers;
+* READING: string `+` integer is not described by the manual (the sum of two strings is the
+  concatenation, the sum of two integers the arithmetic sum) – `.undef`, not judged.  With a float
+  operand a sum cannot be a concatenation: the string is a number there. -/
+def promote (o : BinOp) : Ty → Ty → Except Err (Conv × Conv)
+  | .int, .int => .ok (.keep, .keep)
+  | .flt, .flt => if o.accF then .ok (.keep, .keep) else .error .type
+  | .flt, .int => if o.accF then .ok (.keep, .i2f) else .error .type
+  | .int, .flt => if o.accF then .ok (.i2f, .keep) else .error .type
+  | .str, .str => if o.accS then .ok (.keep, .keep) else .ok (.s2i, .s2i)
+  | .str, .int => if o == .add then .error .undef else .ok (.s2i, .keep)
+  | .int, .str => if o == .add then .error .undef else .ok (.keep, .s2i)
+  | .str, .flt => if o.accF then .ok (.s2i2f, .keep) else .error .type
+  | .flt, .str => if o.accF then .ok (.keep, .s2i2f) else .error .type
+
+/-- the sign/complement operators: `-` takes integers and floats, `~` and `~~` integers -/
+def promoteUn (u : UnOp) : Ty → Except Err Conv
+  | .int => .ok .keep
+  | .flt => if u == .neg then .ok .keep else .error .type
+  | .str => .ok .s2i
+
+/-- carrying out a conversion; a string that has no integer value (empty, more than four characters) is
+not a number: type error -/
+def applyConv : Conv → Val → Except Err Val
+  | .keep, v => .ok v
+  | .s2i, v => (asInt v).map .int
+  | .i2f, .int a => .ok (.flt (toF a))
+  | .i2f, v => .ok v
+  | .s2i2f, v => (asInt v).map fun a => .flt (toF a)
+
+/-- the operation on operands of equal type -/
+def typedBin (o : BinOp) : Val → Val → Except Err Val
   | .int a, .int b => (intBin o a b).map .int
-  | .flt x, .flt y => if o.accF then fltBin o x y else .error .type
-  | .flt x, .int b => if o.accF then fltBin o x (toF b) else .error .type
-  | .int a, .flt y => if o.accF then fltBin o (toF a) y else .error .type
-  | .str a, .str b =>
-    if o.accS then strBin o a b
-    else do let x ← asInt l; let y ← asInt r; (intBin o x y).map .int
-  | .str _, .int b =>
-    if o == .add then .error .undef   -- READING: string + integer is not described by the manual
-    else do let x ← asInt l; (intBin o x b).map .int
-  | .int a, .str _ =>
-    if o == .add then .error .undef
-    else do let y ← asInt r; (intBin o a y).map .int
-  | .str _, .flt _ | .flt _, .str _ => .error .undef
+  | .flt x, .flt y => fltBin o x y
+  | .str a, .str b => strBin o a b
+  | _, _ => .error .type
+
+/-- dyadic operators with the typing of the table: promotion rule, conversions (left operand first),
+operation -/
+def specBin (o : BinOp) (l r : Val) : Except Err Val :=
+  match promote o l.ty r.ty with
+  | .error e => .error e
+  | .ok (cl, cr) =>
+    match applyConv cl l, applyConv cr r with
+    | .error e, _ => .error e
+    | .ok _, .error e => .error e
+    | .ok a, .ok b => typedBin o a b
+
+/-- the sign/complement on a number -/
+def typedUn (u : UnOp) : Val → Except Err Val
+  | .int a => .ok (.int (intUn u a))
+  | .flt x => if u == .neg then .ok (.flt (-x)) else .error .type
+  | .str _ => .error .type
 
 def specUn (u : UnOp) (v : Val) : Except Err Val :=
-  match v with
-  | .int a => .ok (.int (intUn u a))
-  | .flt x => match u with
-    | .neg => .ok (.flt (-x))
-    | _ => .error .type
-  | .str _ => do let a ← asInt v; .ok (.int (intUn u a))
+  match promoteUn u v.ty with
+  | .error e => .error e
+  | .ok c =>
+    match applyConv c v with
+    | .error e => .error e
+    | .ok a => typedUn u a
 
 def upChar (c : Char) : Char := if 'a' ≤ c ∧ c ≤ 'z' then Char.ofNat (c.toNat - 32) else c
 def lowChar (c : Char) : Char := if 'A' ≤ c ∧ c ≤ 'Z' then Char.ofNat (c.toNat + 32) else c
@@ -279,8 +356,9 @@ def findSub (pat : List Char) : List Char → Nat → Option Nat
   | [], k => if pat.isEmpty then some k else none
   | c :: cs, k => if pat.isPrefixOf (c :: cs) then some k else findSub pat cs (k + 1)
 
-/-- table "Functions Predefined by AS" and the paragraphs below it -/
-def specFn (f : Fn) (args : List Val) : Except Err Val :=
+/-- table "Functions Predefined by AS" and the paragraphs below it, on arguments that are numbers where
+the table says "integer" / "floating point" (an integer where a float is expected is promoted here) -/
+def specFnCore (f : Fn) (args : List Val) : Except Err Val :=
   match f, args with
   | .bitcnt, [.int a] => .ok (.int (bitcntSpec a))
   | .firstbit, [.int a] => .ok (.int (firstbitSpec a))
@@ -298,7 +376,12 @@ def specFn (f : Fn) (args : List Val) : Except Err Val :=
     -- the integer part must fit into a signed 64-bit integer
     if x ≥ 9223372036854775808.0 || x < -9223372036854775808.0 || x.isNaN then .error .overRange
     else .ok (.int (wrap x.floor.toInt64.toInt))
-  | .int, [.int a] => .ok (.int a)
+  | .int, [.int a] =>
+    -- "If a function expects floating point arguments … an automatic type conversion is engaged": the integer
+    -- is a double first (exact below 2^53), then the same rule
+    let x := toF a
+    if x ≥ 9223372036854775808.0 || x < -9223372036854775808.0 then .error .overRange
+    else .ok (.int (wrap x.floor.toInt64.toInt))
   | .sqrt, [.flt x] => if x < 0.0 then .error .funcArg else .ok (.flt x.sqrt)
   | .sqrt, [.int a] => if a.toInt < 0 then .error .funcArg else .ok (.flt (toF a).sqrt)
   | .exprtype, [.int _] => .ok (.int 0)
@@ -327,6 +410,32 @@ def specFn (f : Fn) (args : List Val) : Except Err Val :=
   | .sgn, [_] | .abs, [_] | .int, [_] | .sqrt, [_] | .strlen, [_] | .upstring, [_] | .lowstring, [_] => .error .type
   | .substr, [_, _, _] | .charfromstr, [_, _] | .strstr, [_, _] => .error .type
   | _, _ => .error .funcArgCnt
+
+/-- column "argument": does the `k`-th parameter (from 0) of the function expect a number ("integer",
+"floating point", "integer or floating point")?  EXPRTYPE takes any type, the string parameters strings. -/
+def Fn.numParam (f : Fn) (k : Nat) : Bool :=
+  match f with
+  | .bitcnt | .firstbit | .lastbit | .bitpos | .sgn | .abs | .toupper | .tolower | .int | .sqrt => k == 0
+  | .substr => k == 1 || k == 2
+  | .charfromstr => k == 1
+  | .exprtype | .strlen | .strstr | .upstring | .lowstring => false
+
+/-- "If an integer value is expected as argument, and a string is used, the conversion via the
+character's (ASCII) value is done on the fly at this place": string arguments of numeric parameters
+become integers (a string without an integer value is a type error) -/
+def numArgs (f : Fn) : Nat → List Val → Except Err (List Val)
+  | _, [] => .ok []
+  | k, v :: vs =>
+    match (if f.numParam k && v.ty == .str then applyConv .s2i v else .ok v), numArgs f (k + 1) vs with
+    | .error e, _ => .error e
+    | .ok _, .error e => .error e
+    | .ok a, .ok as => .ok (a :: as)
+
+/-- **functions**: automatic conversion of the arguments, then the table -/
+def specFn (f : Fn) (args : List Val) : Except Err Val :=
+  match numArgs f 0 args with
+  | .error e => .error e
+  | .ok as => specFnCore f as
 
 /-! ## evaluation: a structural fold, parametrised by the operator/function semantics -/
 
@@ -427,5 +536,27 @@ def render : Formula → List Char
   | .fn1 f a => f.name ++ ['('] ++ render a ++ [')']
   | .fn2 f a b => f.name ++ ['('] ++ render a ++ [','] ++ render b ++ [')']
   | .fn3 f a b c => f.name ++ ['('] ++ render a ++ [','] ++ render b ++ [','] ++ render c ++ [')']
+
+/-! ### character constants
+
+"it is irrelevant whether single or double quotes are used": the same formula with its string constants
+written as character constants `'...'` (those that contain neither quote nor backslash; the others stay
+in double quotes) has the same value.  `renderSq` is `render` with that spelling. -/
+
+def renderStrSq (s : List Char) : List Char :=
+  if s.any (fun c => c == '\\' || c == '"' || c == '\'') then renderStr s else ['\''] ++ s ++ ['\'']
+
+def renderValSq : Val → List Char
+  | .str s => renderStrSq s
+  | v => renderVal v
+
+def renderSq : Formula → List Char
+  | .lit v => renderValSq v
+  | .un u e => u.spelling ++ paren (u.rank ≤ e.rootRank) (renderSq e)
+  | .bin o l r =>
+    paren (o.rank < l.rootRank) (renderSq l) ++ o.spelling ++ paren (o.rank ≤ r.rootRank) (renderSq r)
+  | .fn1 f a => f.name ++ ['('] ++ renderSq a ++ [')']
+  | .fn2 f a b => f.name ++ ['('] ++ renderSq a ++ [','] ++ renderSq b ++ [')']
+  | .fn3 f a b c => f.name ++ ['('] ++ renderSq a ++ [','] ++ renderSq b ++ [','] ++ renderSq c ++ [')']
 
 end AslModel.Formula
